@@ -159,7 +159,7 @@ def gen_driver(rng, ids):
             roll = rng.random()
             if roll < 0.45:
                 driver.append({'op': 'setflag', 'f': rng.randrange(3), 'v': rng.random() < 0.6,
-                               'id': ids('d')})
+                               'via_inverse': rng.random() < 0.25, 'id': ids('d')})
             elif roll < 0.55:
                 if rng.random() < 0.6:
                     driver.append({'op': 'settracked', 'i': 2, 'id': ids('d'),
